@@ -53,7 +53,9 @@ type StackCase struct {
 	Authz      string   `json:"authz"`
 	Method     string   `json:"method"`
 	HandlerErr bool     `json:"handler_err,omitempty"` // untyped flavour: the handler returns an error, ServeError observes the request
-	Reqs       []Req    `json:"reqs"`
+	// LateAuthz: the authorizer is registered after the Context was created and before the handler is built
+	LateAuthz bool  `json:"late_authz,omitempty"`
+	Reqs      []Req `json:"reqs"`
 }
 
 func (c StackCase) reg() map[string]bool {
@@ -90,6 +92,9 @@ func buildSpec(c StackCase) json.RawMessage {
 				sc = []string{}
 			}
 			m[s] = sc
+		}
+		if a.EmptyName && !a.Anon && len(a.Schemes) > 0 {
+			m[""] = []string{}
 		}
 		sec = append(sec, m)
 	}
@@ -169,6 +174,12 @@ func (r *stackRig) registerCommon(api *untyped.API) {
 			api.RegisterAuth(s, &scripted{name: s, log: &r.obs.log, legal: legalScopes(r.c.Alts, s)})
 		}
 	}
+	if !r.c.LateAuthz {
+		r.registerAuthorizer(api)
+	}
+}
+
+func (r *stackRig) registerAuthorizer(api *untyped.API) {
 	if az := newAuthorizer(r.c.Authz, &r.obs.log); az != nil {
 		api.RegisterAuthorizer(az)
 	}
@@ -207,6 +218,9 @@ func newUntypedRig(c StackCase) (*stackRig, error) {
 		oerr.ServeError(rw, rq, err)
 	}
 	r.ctx = middleware.NewContext(doc, api, nil)
+	if c.LateAuthz {
+		r.registerAuthorizer(api)
+	}
 	r.handler = r.ctx.APIHandler(nil)
 	return r, nil
 }
@@ -279,6 +293,9 @@ func newTypedRig(c StackCase) (*stackRig, error) {
 	api := untyped.NewAPI(doc)
 	r.registerCommon(api)
 	r.ctx = middleware.NewRoutableContext(doc, &genAPI{api: api, rig: r}, nil)
+	if c.LateAuthz {
+		r.registerAuthorizer(api)
+	}
 	r.handler = r.ctx.APIHandler(nil)
 	return r, nil
 }
@@ -531,7 +548,11 @@ func checkPermutedAuthorize(c StackCase, rig *stackRig, reg map[string]bool, q R
 		if a.Anon {
 			continue
 		}
-		if !reflect.DeepEqual(sortedSet(ras[i].Schemes), sortedSet(a.Schemes)) {
+		declared := a.Schemes
+		if a.EmptyName {
+			declared = append([]string{""}, a.Schemes...) // the entry under the empty name is an entry like any other
+		}
+		if !reflect.DeepEqual(sortedSet(ras[i].Schemes), sortedSet(declared)) {
 			return kit.Failf("alternative %d: schemes %v in the route, %v declared", i, ras[i].Schemes, a.Schemes)
 		}
 		ras[i].Schemes = append([]string(nil), orders[i]...)
